@@ -15,12 +15,12 @@ DEMO=$PKG/zz_seed_demo_test.go
 cp "$OUT/demo_test.go" "$DEMO"
 echo "== demo WITH change (must fail)" >>$LOG
 go test -vet=off -count=1 ./$PKG/ -run "$(grep -o 'func Test[A-Za-z0-9_]*' $DEMO | sed 's/func //' | paste -sd'|')" >>$LOG 2>&1; WITH=$?
-git stash -q
+git apply -R "$OUT/patch.diff"
 cp "$OUT/demo_test.go" "$DEMO"
 echo "== demo WITHOUT change (must pass)" >>$LOG
 go test -vet=off -count=1 ./$PKG/ -run "$(grep -o 'func Test[A-Za-z0-9_]*' $DEMO | sed 's/func //' | paste -sd'|')" >>$LOG 2>&1; WITHOUT=$?
 rm -f "$DEMO"
-git stash pop -q
+git apply "$OUT/patch.diff"
 rm -f "$DEMO"
 echo "== build + full suite WITH change (must pass)" >>$LOG
 go build ./... >>$LOG 2>&1; B=$?
